@@ -149,6 +149,14 @@ func cmdSelftest(args []string) int {
 		fmt.Printf("selftest: symbolic regexp matcher == regexp.MatchString on %d (expression, text) pairs\n", n)
 	}
 
+	// 2d. the symbolic UTF-8 decoder of range-over-string against the runtime's
+	if n, bad := gosym.SelfTestRuneIter(); bad != "" {
+		fails++
+		fmt.Println("SELFTEST FAIL:", bad)
+	} else {
+		fmt.Printf("selftest: symbolic rune iteration == the runtime's on %d byte strings\n", n)
+	}
+
 	// 3. regosym concrete mode vs real OPA on fixture pairs
 	dirs, _ := filepath.Glob(filepath.Join(repoDir, "test/data/integration/*"))
 	tck, _ := filepath.Glob(filepath.Join(repoDir, "test/data/tck/*/*"))
